@@ -102,6 +102,217 @@ def routing(loader):
 
 TASKS = [StructTask("read-only-frames", frame_check, note="scalar hints: " + ", ".join(SCALARS)), StructTask("pre-and-post-restores-masks", pre_post, textual=True), StructTask("routing", routing, textual=True)]
 
+# ---------------------------------------------------------------------------------------------------------------------
+# the drawing helpers, the single-panel driver and the summary table under contract.  The Axes object / pandas are recorders: every ax.plot / ax.fill call
+# and the data handed to pd.DataFrame are kept in a ghost list; the statistics accessors are opaque functions of (object, arguments) (their contracts:
+# C05 / C08 / C11).  Proved: what is drawn / tabulated is the accessor the statement names, evaluated for the distribution option that belongs to it, and the
+# object is not written (frame).
+import z3
+from pyvc.core import I, R, B, FuncV, ModV, DictV, StrV, Tup, NONE, ClsV, OpaqueV, ORef, ARef, MaskedV, Undecided, lit
+from pyvc.contract import Contract, FunctionTask, sym_obj
+from pyvc import npmodel as npm
+
+ARp = z3.ArraySort(I, R)
+MP, KP = z3.Ints("n_frequencies n_curves")
+FRQP = z3.Const("frequency", ARp)
+ACC = z3.Function("accessor_scalar", I, I, R, R)           # (accessor code, distribution code, n) -> value
+ACCV = z3.Function("accessor_curve", I, I, R, ARp)         # curve-valued accessors
+_ACODE = {"mean_fn_frequency": 1, "std_fn_frequency": 2, "nth_std_fn_frequency": 3, "mean_fn_amplitude": 4, "std_fn_amplitude": 5, "nth_std_fn_amplitude": 6,
+          "mean_curve": 7, "std_curve": 8, "nth_std_curve": 9, "mean_curve_peak_f": 10, "mean_curve_peak_a": 11}
+_DCODE = {"lognormal": 1, "normal": 2}
+
+
+def _dc(d):
+    return z3.IntVal(_DCODE[d.s]) if isinstance(d, StrV) else lit(d)
+
+
+def _acc_model(name, curve=False, pair=False):
+    def f(ex, st, args, kw, node):
+        b = dict(zip(["n", "distribution"] if name.startswith("nth") else ["distribution"], args[1:]))
+        b.update(kw)
+        d, n = _dc(b.get("distribution", StrV("lognormal"))), npm.real(b.get("n", 0))
+        if pair:
+            return Tup((ACC(z3.IntVal(_ACODE["mean_curve_peak_f"]), d, n), ACC(z3.IntVal(_ACODE["mean_curve_peak_a"]), d, n)))
+        if curve:
+            return ex.alloc_arr(st, (MP,), ACCV(z3.IntVal(_ACODE[name]), d, n), "real", "fresh", tag=name)
+        return ACC(z3.IntVal(_ACODE[name]), d, n)
+    return FuncV(f, name)
+
+
+def _registry(cls):
+    reg = {f"{cls}.{nm}": _acc_model(nm, curve=nm.endswith("curve")) for nm in _ACODE if not nm.startswith("mean_curve_peak")}
+    reg[f"{cls}.mean_curve_peak"] = _acc_model("mean_curve_peak", pair=True)
+    for m in ("plot", "fill", "set_ylim", "set_xscale", "set_xlabel", "set_ylabel", "legend"):
+        reg[f"Axes.{m}"] = FuncV(lambda ex, st, a, k, n_, _m=m: (st.env.__setitem__("__drawn", Tup(tuple(st.env["__drawn"]) + ((_m, Tup(a[1:]), dict(k)),))), NONE)[1], m)
+    reg["Axes.get_ylim"] = FuncV(lambda ex, st, a, k, n_: Tup((z3.RealVal(0), z3.Real("y_max_of_the_axes"))), "get_ylim")
+    return reg
+
+
+def _plot_inputs(cls, extra):
+    def mk(ex, st):
+        fields = {"frequency": ex.alloc_arr(st, (MP,), FRQP, "real", "param:hvsr.frequency", tag="frequency")}
+        if cls == "HvsrTraditional":
+            import contracts.acc_traditional as _A
+            fields.update(_A._self_fields(ex, st))
+            fields["frequency"] = ex.alloc_arr(st, (MP,), FRQP, "real", "param:hvsr.frequency", tag="frequency")
+        st.env["hvsr"] = sym_obj(ex, st, cls, fields, owner="param:hvsr")
+        st.env["ax"] = sym_obj(ex, st, "Axes", {}, owner="param:ax")
+        st.env.update(extra)
+        st.env["__drawn"] = Tup(())
+        st.env["MP"] = MP
+        return [MP >= 1]
+    return mk
+
+
+def _kw(d):
+    return DictV({k: StrV(str(v)) for k, v in d.items()}, owner="module")
+
+
+_DEFAULTS = DictV({k: _kw({"label": k}) for k in ("individual_valid_hvsr_curve", "individual_invalid_hvsr_curve", "mean_hvsr_curve", "nth_std_mean_hvsr_curve",
+                                                   "nth_std_frequency_range_normal", "nth_std_frequency_range_lognormal", "peak_mean_hvsr_curve",
+                                                   "peak_mean_hvsr_curve_azimuthal", "peak_individual_valid_hvsr_curve", "peak_individual_invalid_hvsr_curve")}, owner="module")
+_P_ENV = {c: ClsV(c) for c in ("HvsrTraditional", "HvsrAzimuthal", "HvsrDiffuseField")}
+_P_ENV.update(DEFAULT_KWARGS=_DEFAULTS, np=ModV("np", dict(npm.NP.attrs, ceil=FuncV(lambda ex, st, a, k, n_: ex.fresh("ceil", R), "np.ceil"))))
+
+
+def _drawn(ex, st, a, k, n_):
+    """DRAWN(i): the i-th recorded call as (method, args); `only(method)` etc. are spelled out in the clauses through these accessors"""
+    return st.env["__drawn"]
+
+
+def _one_line(kind):
+    """exactly one ax.<kind> call was made (besides axis cosmetics) and its data arguments are (x, y)"""
+    def f(ex, st, a, k, n_):
+        calls = [c for c in st.env["__drawn"] if c[0] in ("plot", "fill")]
+        if len(calls) != 1 or calls[0][0] != kind:
+            return z3.BoolVal(False)
+        x, y = calls[0][1][0], calls[0][1][1]
+        wx, wy = a[0], a[1]
+
+        def same(p, q):
+            if isinstance(p, ARef) and isinstance(q, ARef):
+                dp, dq = ex.arr(st, p), ex.arr(st, q)
+                return z3.And(dp.data == dq.data, dp.shape[0] == dq.shape[0])
+            if isinstance(p, ARef) or isinstance(q, ARef):
+                return z3.BoolVal(False)
+            return lit(p) == lit(q)
+        return z3.And(same(x, wx), same(y, wy))
+    return FuncV(f, "one_" + kind)
+
+
+_PG = {"one_plot": _one_line("plot"), "CURVE": FuncV(lambda ex, st, a, k, n_: ex.alloc_arr(st, (MP,), ACCV(z3.IntVal(_ACODE[a[0].s]), _dc(a[1]), npm.real(a[2]) if len(a) > 2 else z3.RealVal(0)), "real", "fresh"), "CURVE"),
+       "VALUE": FuncV(lambda ex, st, a, k, n_: ACC(z3.IntVal(_ACODE[a[0].s]), _dc(a[1]), npm.real(a[2]) if len(a) > 2 else z3.RealVal(0)), "VALUE"),
+       "nothing_drawn": FuncV(lambda ex, st, a, k, n_: z3.BoolVal(not [c for c in st.env["__drawn"] if c[0] in ("plot", "fill")]), "nothing_drawn")}
+_QP = "hvsrpy.postprocessing."
+DISTP = z3.Int("distribution")
+NP_ = z3.Real("n")
+for _cls in ("HvsrTraditional", "HvsrAzimuthal"):
+    _reg = _registry(_cls)
+    for _fn, _params, _extra, _ens in (
+            ("_plot_mean_hvsr_curve", ["ax", "hvsr", "distribution", "plot_kwargs"], {"distribution": DISTP, "plot_kwargs": NONE},
+             ["one_plot(hvsr.frequency, CURVE('mean_curve', distribution))"]),
+            ("_plot_nth_std_hvsr_curve", ["ax", "hvsr", "distribution", "n", "plot_kwargs"], {"distribution": DISTP, "n": NP_, "plot_kwargs": NONE},
+             ["one_plot(hvsr.frequency, CURVE('nth_std_curve', distribution, n))"]),
+            ("_plot_peak_mean_hvsr_curve", ["ax", "hvsr", "distribution", "plot_kwargs"], {"distribution": DISTP, "plot_kwargs": NONE},
+             ["one_plot(VALUE('mean_curve_peak_f', distribution), VALUE('mean_curve_peak_a', distribution))"])):
+        _c = Contract(qual=_QP + _fn, params=_params, ghost=_PG, make_inputs=_plot_inputs(_cls, _extra), ensures=_ens, modifies=["param:ax"],
+                      notes="one line carrying the accessor's values for the distribution asked for; the object is not written")
+        _c.ghost_state = ("__drawn",)
+        TASKS.append(FunctionTask(_c, module_env=_P_ENV, registry=_reg, label=f"{_QP}{_fn}[{_cls}]", clauses=["what is drawn is the object's statistic"]))
+    for _d in ("lognormal", "normal"):
+        def _band(ex, st, a, k, n_, _d=_d):
+            calls = [c for c in st.env["__drawn"] if c[0] in ("plot", "fill")]
+            if len(calls) != 1 or calls[0][0] != "fill":
+                return z3.BoolVal(False)
+            xs = st.heap[calls[0][1][0].sid].items
+            lo = ACC(z3.IntVal(_ACODE["nth_std_fn_frequency"]), z3.IntVal(_DCODE[_d]), -NP_)
+            hi = ACC(z3.IntVal(_ACODE["nth_std_fn_frequency"]), z3.IntVal(_DCODE[_d]), NP_)
+            return z3.And(lit(xs[0]) == lo, lit(xs[1]) == lo, lit(xs[2]) == hi, lit(xs[3]) == hi) if len(xs) == 4 else z3.BoolVal(False)
+        _c = Contract(qual=_QP + "_plot_nth_std_frequency_range", params=["ax", "hvsr", "distribution", "n", "fill_kwargs"], ghost=dict(_PG, band=FuncV(_band, "band")),
+                      make_inputs=_plot_inputs(_cls, {"distribution": StrV(_d), "n": NP_, "fill_kwargs": NONE}), ensures=["band()"], modifies=["param:ax"],
+                      notes="one filled band from the -n to the +n standard-deviation value of the resonance frequency for the distribution asked for")
+        _c.ghost_state = ("__drawn",)
+        TASKS.append(FunctionTask(_c, module_env=_P_ENV, registry=_reg, label=f"{_QP}_plot_nth_std_frequency_range[{_cls},{_d}]", clauses=["the fn band is the object's +-n values"]))
+
+# single-panel driver: which helper is called with which distribution option (all optional parts switched on)
+_HELPERS = ("_plot_individual_hvsr_curves", "_plot_mean_hvsr_curve", "_plot_nth_std_hvsr_curve", "_plot_nth_std_frequency_range", "_plot_peak_mean_hvsr_curve", "_plot_peak_individual_hvsr_curve")
+
+
+def _helper_model(name):
+    def f(ex, st, args, kw, node):
+        st.env["__drawn"] = Tup(tuple(st.env["__drawn"]) + ((name, Tup(args), dict(kw)),))
+        return NONE
+    return FuncV(f, name)
+
+
+DMC_, DFN_ = z3.Ints("distribution_mc distribution_fn")
+
+
+def _panel_calls(ex, st, a, k, n_):
+    calls = [c for c in st.env["__drawn"] if c[0] in _HELPERS]
+    want = [("_plot_individual_hvsr_curves", {"valid": True}), ("_plot_individual_hvsr_curves", {"valid": False}), ("_plot_mean_hvsr_curve", {"distribution": DMC_}),
+            ("_plot_nth_std_hvsr_curve", {"distribution": DMC_, "n": 1}), ("_plot_nth_std_hvsr_curve", {"distribution": DMC_, "n": -1}),
+            ("_plot_nth_std_frequency_range", {"distribution": DFN_, "n": 1}), ("_plot_peak_mean_hvsr_curve", {"distribution": DMC_}),
+            ("_plot_peak_individual_hvsr_curve", {"valid": True}), ("_plot_peak_individual_hvsr_curve", {"valid": False})]
+    if [c[0] for c in calls] != [w[0] for w in want]:
+        return z3.BoolVal(False)
+    conj = []
+    for c, (nm, kws) in zip(calls, want):
+        if c[2].get("hvsr") is not st.env["hvsr"] or c[2].get("ax") is not st.env["ax"]:
+            return z3.BoolVal(False)
+        for key, val in kws.items():
+            got = c[2].get(key)
+            if got is None:
+                return z3.BoolVal(False)
+            conj.append(lit(got) == (z3.BoolVal(val) if isinstance(val, bool) else (z3.IntVal(val) if isinstance(val, int) else val)) if not z3.is_real(lit(got)) or isinstance(val, bool)
+                        else lit(got) == z3.RealVal(val))
+    return z3.And(*conj)
+
+
+_on = z3.BoolVal(True)
+PANEL = Contract(qual=_QP + "plot_single_panel_hvsr_curves",
+                 params=["hvsr", "distribution_mc", "distribution_fn", "plot_valid_curves", "plot_invalid_curves", "plot_mean_curve", "plot_frequency_std", "plot_peak_mean_curve",
+                         "plot_peak_individual_valid_curves", "plot_peak_individual_invalid_curves", "ax", "subplots_kwargs"],
+                 ghost={"panel_calls": FuncV(_panel_calls, "panel_calls")},
+                 make_inputs=_plot_inputs("HvsrTraditional", {"distribution_mc": DMC_, "distribution_fn": DFN_, "plot_valid_curves": _on, "plot_invalid_curves": _on, "plot_mean_curve": _on,
+                                                               "plot_frequency_std": _on, "plot_peak_mean_curve": _on, "plot_peak_individual_valid_curves": _on,
+                                                               "plot_peak_individual_invalid_curves": _on, "subplots_kwargs": NONE}),
+                 ensures=["panel_calls()", "result is ax"], modifies=["param:ax"],
+                 notes="with every optional part switched on: accepted curves, rejected curves, the mean and +-1 standard-deviation curves for distribution_mc, the fn band for "
+                       "distribution_fn, the mean-curve peak for distribution_mc, accepted and rejected individual peaks - each helper once, on the object and the axes given")
+PANEL.ghost_state = ("__drawn",)
+_panel_reg = _registry("HvsrTraditional")
+TASKS.append(FunctionTask(PANEL, module_env=dict(_P_ENV, **{h: _helper_model(h) for h in _HELPERS}), registry=_panel_reg, label=_QP + "plot_single_panel_hvsr_curves[all parts]",
+                          clauses=["every statistic is drawn for the distribution option that belongs to it"]))
+
+# summary table
+def _m_dataframe(ex, st, args, kw, node):
+    st.env["__table"] = kw["data"]
+    return OpaqueV("DataFrame")
+
+
+def _cell(ex, st, a, k, n_):
+    return ex.sel2(ex.arr(st, st.env["__table"]), lit(a[0]), lit(a[1]))
+
+
+_PD = ModV("pd", {"DataFrame": FuncV(_m_dataframe, "pd.DataFrame"), "option_context": FuncV(lambda ex, st, a, k, n_: OpaqueV("option_context"), "pd.option_context")})
+for _cls in ("HvsrTraditional", "HvsrAzimuthal"):
+    for _d in ("lognormal", "normal"):
+        V = lambda nm, n=None: f"VALUE('{nm}', distribution_fn" + (f", {n})" if n is not None else ")")
+        rows = {0: [V("mean_fn_frequency"), V("std_fn_frequency"), V("nth_std_fn_frequency", -1), V("nth_std_fn_frequency", 1)],
+                2: [V("mean_fn_amplitude"), V("std_fn_amplitude"), V("nth_std_fn_amplitude", -1), V("nth_std_fn_amplitude", 1)]}
+        ens = [f"CELL({r}, {c}) == {e}" for r, es in rows.items() for c, e in enumerate(es)]
+        if _d == "lognormal":
+            ens += [f"CELL(1, 0) == 1 / {V('mean_fn_frequency')}", f"CELL(1, 1) == {V('std_fn_frequency')}"]
+        _c = Contract(qual=_QP + "summarize_hvsr_statistics", params=["hvsr", "distribution_mc", "distribution_fn"], ghost=dict(_PG, CELL=FuncV(_cell, "CELL")),
+                      make_inputs=_plot_inputs(_cls, {"distribution_mc": StrV("lognormal"), "distribution_fn": StrV(_d)}), ensures=ens, modifies=[],
+                      requires=([f"{V('mean_fn_frequency')} != 0 and {V('nth_std_fn_frequency', -1)} != 0 and {V('nth_std_fn_frequency', 1)} != 0"] if _d == "lognormal" else []),
+                      notes="rows fn / Tn / An; columns median-or-mean, standard deviation, -1 and +1 standard-deviation values of the object's fn statistics for distribution_fn; "
+                            "the period row holds the reciprocal of the lognormal median and the same log-standard deviation")
+        _c.ghost_state = ("__table",)
+        TASKS.append(FunctionTask(_c, module_env=dict(_P_ENV, pd=_PD, display=FuncV(lambda ex, st, a, k, n_: NONE, "display")), registry=_registry(_cls),
+                                  label=f"{_QP}summarize_hvsr_statistics[{_cls},{_d}]", clauses=["the summary table lists the object's fn statistics"]))
+
 META = dict(
     level="other",
     explanation="frame obligations: the 14 plotting / summary functions write nothing reachable from the HVSR object, the recordings or their keyword-argument "
